@@ -79,10 +79,19 @@ func isRegister(a *ssa.Alloc) bool {
 	if a.Referrers() == nil {
 		return false
 	}
-	for _, r := range *a.Referrers() {
+	return addrStaysLocal(a, 0)
+}
+
+// addrStaysLocal: the address v is only loaded from, stored to, or refined by
+// field selection (whose results obey the same rule).
+func addrStaysLocal(v ssa.Value, depth int) bool {
+	if depth > 6 || v.Referrers() == nil {
+		return false
+	}
+	for _, r := range *v.Referrers() {
 		switch r := r.(type) {
 		case *ssa.Store:
-			if r.Val == ssa.Value(a) {
+			if r.Val == v {
 				return false
 			}
 		case *ssa.UnOp:
@@ -90,11 +99,34 @@ func isRegister(a *ssa.Alloc) bool {
 				return false
 			}
 		case *ssa.DebugRef:
+		case *ssa.FieldAddr:
+			if !addrStaysLocal(r, depth+1) {
+				return false
+			}
 		default:
 			return false
 		}
 	}
 	return true
+}
+
+// localRoot: if v is a register-like alloc or a field address inside one,
+// returns the alloc, the slot offset and the type at that address.
+func (fr *Frame) localRoot(v ssa.Value) (*ssa.Alloc, int, types.Type, bool) {
+	switch x := v.(type) {
+	case *ssa.Alloc:
+		if fr.reg[x] {
+			return x, 0, x.Type().(*types.Pointer).Elem(), true
+		}
+	case *ssa.FieldAddr:
+		a, off, t, ok := fr.localRoot(x.X)
+		if !ok {
+			return nil, 0, nil, false
+		}
+		stt := t.Underlying().(*types.Struct)
+		return a, off + fr.vc.p.lay.fieldOffset(stt, x.Field), stt.Field(x.Field).Type(), true
+	}
+	return nil, 0, nil, false
 }
 
 func (fr *Frame) localKey(a *ssa.Alloc, slot int) string {
@@ -415,6 +447,14 @@ func (fr *Frame) exec(st *State, instr ssa.Instruction) {
 			fr.setLocal(st, a, fr.val(st, x.Val))
 			return
 		}
+		if a, off, _, ok := fr.localRoot(x.Addr); ok {
+			whole := fr.getLocal(st, a)
+			v := fr.val(st, x.Val)
+			ns := append([]Term{}, whole.S...)
+			copy(ns[off:], v.S)
+			fr.setLocal(st, a, Val{T: whole.T, S: ns})
+			return
+		}
 		p := fr.val(st, x.Addr)
 		fr.safety(st, "nil-deref", tNot(tEq(p.S[0], "0")), "store through "+x.Addr.Name())
 		v := fr.val(st, x.Val)
@@ -434,6 +474,9 @@ func (fr *Frame) exec(st *State, instr ssa.Instruction) {
 		a, b := fr.val(st, x.X), fr.val(st, x.Y)
 		fr.setVal(x, fr.binop(st, x.Op, a, b, x.Type()))
 	case *ssa.FieldAddr:
+		if _, _, _, ok := fr.localRoot(x); ok {
+			return // address inside a register-like local: resolved at its uses
+		}
 		p := fr.val(st, x.X)
 		stt := x.X.Type().Underlying().(*types.Pointer).Elem().Underlying().(*types.Struct)
 		fr.safety(st, "nil-deref", tNot(tEq(p.S[0], "0")), "field address of nil "+x.X.Name())
@@ -564,6 +607,12 @@ func (fr *Frame) execUnOp(st *State, x *ssa.UnOp) {
 	case token.MUL:
 		if a, ok := x.X.(*ssa.Alloc); ok && fr.reg[a] {
 			fr.setVal(x, fr.getLocal(st, a))
+			return
+		}
+		if a, off, t, ok := fr.localRoot(x.X); ok {
+			whole := fr.getLocal(st, a)
+			n := vc.p.lay.size(t)
+			fr.setVal(x, Val{S: append([]Term{}, whole.S[off:off+n]...)})
 			return
 		}
 		p := fr.val(st, x.X)
